@@ -12,7 +12,13 @@ var props = map[string]struct {
 	level string
 	fn    func(*h.Run)
 }{
+	"dbg-lo": {"other", h.DebugLO},
 	"C01": {"exploration", h.C01},
+	"C02": {"exploration", h.C02},
+	"C04": {"exploration", h.C04},
+	"C05": {"exploration", h.C05},
+	"C06": {"exploration", h.C06},
+	"C30": {"exploration", h.C30},
 }
 
 func main() {
